@@ -274,7 +274,7 @@ def run_gen_case(case):
             if kind == 'coro' and variant == 'orig':
                 pass
             outs[variant] = o
-            logs[variant] = log
+            logs[variant] = list(log)       # side effects of the operations applied; what the harness' own closing below and the collector provoke is not compared
             if variant == 'wrapped':
                 counts = c
                 while prof.enable_count > 0:
